@@ -12,8 +12,8 @@ from .c13 import file_bytes
 
 I = z3.Int
 BOUNDS = {"quick": [dict(what="observer", K=3, pre=2, to=1), dict(what="saver", K=3, pre=1, to=1), dict(what="saver-only", K=3, pre=2, to=1)],
-          "thorough": [dict(what="observer", K=5, pre=2, to=1), dict(what="observer", K=3, pre=3, to=2), dict(what="saver", K=4, pre=2, to=1),
-                       dict(what="observer2", K=3, pre=2, to=1)]}
+          "thorough": [dict(what="observer", K=5, pre=2, to=1), dict(what="observer", K=4, pre=3, to=1), dict(what="saver", K=3, pre=1, to=1),
+                       dict(what="saver", K=2, pre=2, to=1), dict(what="saver-only", K=4, pre=2, to=1), dict(what="observer2", K=3, pre=2, to=1)]}
 
 
 def run_once(mods, s, what, K, data, val, cache):
